@@ -770,8 +770,11 @@ class Interp:
                 d = self.operand(p, fid, fn, t["discr"])
                 if isinstance(d, Int):
                     tgt = t["otherwise"]
+                    # switch targets are written as the unsigned bit pattern of the discriminant's type
+                    bits = {"i8": 8, "i16": 16, "i32": 32, "i64": 64, "i128": 128, "isize": 64}.get(t.get("dty") or d.ty)
+                    dv = d.v % (1 << bits) if bits and d.v < 0 else d.v
                     for v, b in t["targets"]:
-                        if int(v) == d.v:
+                        if int(v) == dv or int(v) == d.v:
                             tgt = b
                             break
                     p.stack[-1][2] = tgt
